@@ -274,6 +274,7 @@ package actions
 //@   ensures others_untouched: forall t Id :: old(topics.exists(t)) ==> topic_unchanged(t)
 //@   ensures only_one_row: forall t Id :: !old(topics.exists(t)) && topics.exists(t) ==> err == nil && t == a.results.ID
 //@   ensures still_unique: err == nil ==> unique_topic_names() && topics_wf()
+//@   ensures no_inherited_subscriptions: err == nil && old(subs_ri()) ==> (forall s Id :: {subscriptions.topic_id(s)} subscriptions.exists(s) ==> subscriptions.topic_id(s) != a.results.ID)
 //@   ensures no_swallowed_failure: [C09] dbfailed() && !old(dbfailed()) ==> err != nil
 //@   modifies T:topics:*, S:dbfailed, S:wake_on_commit, F:actions.CreateTopic:*, F:actions.createTopicResults:*, F:actions.actionTimer:*
 
@@ -337,6 +338,7 @@ package actions
 //@             (subscriptions.max_backoff$null(x) <==> a.params.MaxBackoff <= 0) && (a.params.MaxBackoff > 0 ==> subscriptions.max_backoff(x) == a.params.MaxBackoff) &&
 //@             (subscriptions.max_delivery_attempts$null(x) <==> a.params.MaxDeliveryAttempts == 0) && (a.params.MaxDeliveryAttempts != 0 ==> subscriptions.max_delivery_attempts(x) == a.params.MaxDeliveryAttempts) &&
 //@             (subscriptions.dead_letter_topic_id$null(x) <==> a.params.DeadLetterTopic == "") && (a.params.DeadLetterTopic != "" ==> topic_named(subscriptions.dead_letter_topic_id(x), a.params.DeadLetterTopic)))
+//@   ensures no_inherited_backlog: err == nil && old(deliveries_wf()) ==> (forall d Id :: {deliveries.subscription_id(d)} deliveries.exists(d) ==> deliveries.subscription_id(d) != a.results.ID)
 //@   ensures expiry_stamp: [C14] err == nil ==> exists now clock :: subscriptions.expires_at(a.results.ID) == now + a.params.TTL
 //@   ensures filter_validated: [C08] err == nil && a.params.Filter != "" ==> parses(a.params.Filter)
 //@   ensures wakes: [C10] err == nil ==> wake_on_commit(a.results.ID)
